@@ -16,7 +16,7 @@ INTS = {
     "int128": (16, True, 16), "uint128": (16, False, 16),
 }
 FLOATS = {"float16": 2, "float": 4, "double": 8}
-PTRTYPES = {1: "uint8", 2: "uint16", 4: "uint32", 8: "uint64"}
+PTRTYPES = {1: "uint8", 2: "uint16", 4: "uint32", 8: "uint64", 3: "uint24", 6: "uint48", 16: "uint128"}
 
 
 # ---------------------------------------------------------------------------------------------- types
